@@ -324,7 +324,7 @@ func ReenterWhilePoor(target common.Address, payload []byte, gas uint64, limit b
 	const selfbalance, lt = 0x47, 0x10
 	a := &Asm{}
 	a.Push1(limit).Op(selfbalance, lt).Push1(8).Op(JUMPI, STOP) // 0..7: balance >= limit -> stop
-	a.Op(JUMPDEST)                                                // 8
+	a.Op(JUMPDEST)                                              // 8
 	a.Push2(len(payload)).PushBlobOffset(payload).Push1(0).Op(CODECOPY)
 	// CALL(gas, to, value, inOffset, inSize, outOffset, outSize)
 	a.Push1(0).Push1(0).Push2(len(payload)).Push1(0).Push1(0).PushAddr(target).PushU64(gas).Op(CALL, POP, STOP)
